@@ -213,6 +213,7 @@ def verifyNODATA (H : HashFn) (records : List Nsec3) (signer : Name) (q : Name) 
     | .ok m =>
       if typesSet m.types [t, tCNAME] then .error .typeExists
       else if t == tDS && typesSet m.types [tSOA] then .error .badDelegation
+      else if t != tDS && typesSet m.types [tNS] && !typesSet m.types [tSOA] then .error .badDelegation
       else .ok true
     | .error _ =>
       match validateCE (closestEncloser H ring q) with
